@@ -27,6 +27,10 @@ CHECKS["C12"] = dict(level="model_checking", ref="DESIGN.md §5 C12, §9", thoro
    text="explicit-state enumeration against a reference model: (A) every document of 1-4 (thorough 5) rules over 26 rule variants (names a, b, $a, $$a x generics x '=', '/=', '//=' x type/group bodies), reference = first plain '=' of an already defined or incremented name, parser must reject exactly then and report that rule's name, line and offset; (B) every one of 34 syntactic reference positions x 52 fillers (defined, every prelude name, own / foreign generic parameter, sockets, undefined look-alikes) singly and in pairs through CDDL::from_slice, reference = reject iff a reference position holds an undefined name",
    note="the two reference models are a dozen lines each (mc/src/c12.rs first_duplicate / expect_undefined); documents outside the crate's grammar are skipped and counted",
    tech="bounded-exhaustive enumeration of rule sequences and reference placements + reference model conformance")
+CHECKS["C20"] = dict(level="model_checking", ref="DESIGN.md §5 C20, §9", thorough=True,
+   text="every accepted document of the syntax families (all type terms up to weight 3 (4 thorough), rule headers, multi-rule documents, and a forced-repetition family that places the same sub-expression twice) is a state; every (child, parent) edge of its AST, produced by an independent walk of the public AST along the crate's documented containment table, is a transition on which the real ParentVisitor is queried: the answer must be the expected parent node itself (address identity; occurrence indicators compared field by field incl. span; literal values, which have no identity, must get the parent of an equal value), the index must build and the root must have no parent",
+   note="purely structural oracle (the containment relation is read off the public AST types); literal Value nodes are by-value and cannot be told apart when equal",
+   tech="bounded-exhaustive enumeration of documents x all parent/child edges, independent AST walk as reference")
 NA = {}
 def main():
     props=[json.loads(l)["id"] for l in open("/verif/properties.jsonl")]
